@@ -23,14 +23,39 @@ class Fixpoint(Monitor):
 OWN_THOROUGH = True
 
 
+class SnapshotStable(Monitor):
+    """A persisted form, once taken, is a snapshot: later events on the live conductor must not
+    change the object serialize() returned (it may still be waiting to be written or compared)."""
+
+    prop = "C05"
+
+    def on_start(self, env):
+        env.held_form = None
+
+    def after_call(self, env, name):
+        if name not in ("update_task_state", "request_workflow_status", "get_next_tasks"):
+            return
+        held = getattr(env, "held_form", None)
+        if held is not None:
+            count(env, "c05_snapshots_rechecked")
+            obj, text, when = held
+            if json.dumps(obj, sort_keys=True, default=str) != text:
+                now = json.loads(json.dumps(obj, default=str))
+                was = json.loads(text)
+                self.fail(env, "persisted-form-mutated", "C05 the persisted form taken after '%s' changed while the conductor went on (%s): restoring from it no longer gives the state that was persisted" % (when, [k for k in was if was[k] != now.get(k)]), part=",".join(k for k in was if was[k] != now.get(k)))
+        obj = env.c.serialize()
+        env.held_form = (obj, json.dumps(obj, sort_keys=True, default=str), " ".join(env.log[-2:]))
+
+
 def crash_twin(ch, ctx, did, steps, crash="bits", crash_max=6, control=None, twin=False):
     """N is never persisted; P is persisted and restored at the chosen boundaries. Both are
     driven by the same decisions. Offers at every step and the final persisted form, output,
     errors and status must be identical."""
     wf = defs.get(did)
-    n = Env(ch, wf, "C05", monitors=[], policy=Policy(steps=steps, tokens=True, bits=True, control=control))
+    n = Env(ch, wf, "C05", monitors=[SnapshotStable()], policy=Policy(steps=steps, tokens=True, bits=True, control=control))
     p = Env(ch, wf, "C05", monitors=[Fixpoint()], policy=Policy(steps=steps, tokens=True, bits=True, control=control, crash=crash, crash_max=crash_max))
     p.counters = ctx["counters"]
+    n.counters = ctx["counters"]
     try:
         n.run()
         p.run()
